@@ -371,6 +371,11 @@ func sysWaitCase(c *ctx, rt string, cancelAt int) {
 			ob["get"] = res
 		}
 	}
+	// a response that answers the OLDER subscription arrives first: it does not carry the name the lookup waits for (for a
+	// full type it is even "complete" without it); the lookup keeps waiting for the response to its own subscription
+	o1b, a1b := mk(1, ns[1:])
+	o1b["o"], o1b["v"], o1b["nonce"] = "push", "v1b", "n1b"
+	h.stepAt(o1b, 0, func() { w.feed(mkResp(urlOf(rt), "v1b", "n1b", a1b)) })
 	o2, a2 := mk(2, ns)
 	recvArm(true)
 	oa := obj{"o": "ack"}
